@@ -154,3 +154,31 @@ def in_process(data, shape):
 
 def seed_random(n):
   random.seed(n)
+
+
+# ------------------------------------------------------------------------------------------------ schedule perturbation
+PERTURB = {'empty_delay': 0.0}
+
+
+class _SlowSimpleQueue(queue.SimpleQueue):
+  """queue.SimpleQueue whose empty() lingers after answering True: the polling loop of the orchestration layer is held
+  between "the queue is empty" and its next step, so producers get to run in exactly that window (generated per case)."""
+
+  def empty(self):
+    r = super().empty()
+    if r and PERTURB['empty_delay']:
+      time.sleep(PERTURB['empty_delay'])
+    return r
+
+
+class _QueueModule:
+  """Stands in for the `queue` module inside a module under test (attribute rebinding, no source change)."""
+  SimpleQueue = _SlowSimpleQueue
+
+  def __getattr__(self, name):
+    return getattr(queue, name)
+
+
+def perturb_polling(module):
+  """Rebinds `module.queue` so that SimpleQueues created there linger after an `empty()` that returned True."""
+  module.queue = _QueueModule()
